@@ -1,7 +1,7 @@
 (* C13 — results are invariant under rotations, row order, patch labels and weight scale; raw
    counts are additive.  Statements about the specification of the measurement
    (count / norm_count / loo_count over labelled weighted points, any distance function). *)
-From Verif Require Import Prelude PairCount Invariance InvarianceP.
+From Verif Require Import Prelude PairCount Invariance InvarianceP Rotation Jackknife InvarianceXP.
 From Coq Require Import Permutation.
 Open Scope Q_scope.
 
@@ -38,6 +38,78 @@ Theorem C13_norm_weight_scale : forall (P : Type) (ang : P -> P -> Q) k lo hi (A
   norm_count ang lo hi (map (scale k) A) B == norm_count ang lo hi A B.
 Proof. exact @norm_weight_scale. Qed.
 Print Assumptions C13_norm_weight_scale.
+
+(* ---------------- rigid rotations are isometries of the quantity the counter compares ---------------- *)
+(* a 3x3 matrix with orthonormal columns preserves squared chord lengths of 3-vectors (and keeps unit vectors
+   on the sphere), so it is an instance of the isometries of C13_count_isometry, for counts, for every
+   jackknife sample and for the normalised terms; poles and RA = 0 play no role on 3-vectors *)
+Theorem C13_rotation_preserves_chords : forall R u v, orth R -> chord2 (mv R u) (mv R v) == chord2 u v.
+Proof. exact chord2_rot. Qed.
+Print Assumptions C13_rotation_preserves_chords.
+
+Theorem C13_rotation_keeps_sphere : forall R u, orth R -> dot3 u u == 1 -> dot3 (mv R u) (mv R u) == 1.
+Proof. exact unit_rot. Qed.
+Print Assumptions C13_rotation_keeps_sphere.
+
+Theorem C13_count_isometry_eq : forall (P : Type) (ang : P -> P -> Q) (phi : P -> P) lo hi (A B : list (lobj P)),
+  (forall a b, ang (phi a) (phi b) == ang a b) ->
+  count ang lo hi (map (move phi) A) (map (move phi) B) == count ang lo hi A B.
+Proof. exact @count_isometry_eq. Qed.
+Print Assumptions C13_count_isometry_eq.
+
+Theorem C13_count_rotation : forall R lo hi (A B : list (lobj v3)), orth R ->
+  count chord2 lo hi (map (move (mv R)) A) (map (move (mv R)) B) == count chord2 lo hi A B.
+Proof. exact count_rotation. Qed.
+Print Assumptions C13_count_rotation.
+
+Theorem C13_loo_rotation : forall R lo hi k (A B : list (lobj v3)), orth R ->
+  loo_count chord2 lo hi k (map (move (mv R)) A) (map (move (mv R)) B) == loo_count chord2 lo hi k A B.
+Proof. exact loo_rotation. Qed.
+Print Assumptions C13_loo_rotation.
+
+Theorem C13_norm_rotation : forall R lo hi (A B : list (lobj v3)), orth R ->
+  norm_count chord2 lo hi (map (move (mv R)) A) (map (move (mv R)) B) == norm_count chord2 lo hi A B.
+Proof. exact norm_rotation. Qed.
+Print Assumptions C13_norm_rotation.
+
+(* ---------------- additivity and weight scale, the remaining cases ---------------- *)
+Theorem C13_count_additive_first : forall (P : Type) (ang : P -> P -> Q) lo hi (A1 A2 B : list (lobj P)),
+  count ang lo hi (A1 ++ A2) B == count ang lo hi A1 B + count ang lo hi A2 B.
+Proof. exact @count_additive_l. Qed.
+Print Assumptions C13_count_additive_first.
+
+(* any split of the rows into two catalogs, not only a cut *)
+Theorem C13_count_additive_split : forall (P : Type) (ang : P -> P -> Q) lo hi (A B B1 B2 : list (lobj P)),
+  Permutation B (B1 ++ B2) -> count ang lo hi A B == count ang lo hi A B1 + count ang lo hi A B2.
+Proof. exact @count_additive_split. Qed.
+Print Assumptions C13_count_additive_split.
+
+Theorem C13_norm_weight_scale_second : forall (P : Type) (ang : P -> P -> Q) k lo hi (A B : list (lobj P)),
+  ~ k == 0 -> ~ totw A * totw B == 0 ->
+  norm_count ang lo hi A (map (scale k) B) == norm_count ang lo hi A B.
+Proof. exact @norm_weight_scale_r. Qed.
+Print Assumptions C13_norm_weight_scale_second.
+
+(* autocorrelation: the one catalog enters twice, k^2 cancels *)
+Theorem C13_norm_weight_scale_auto : forall (P : Type) (ang : P -> P -> Q) k lo hi (A : list (lobj P)),
+  ~ k == 0 -> ~ totw A == 0 ->
+  norm_count ang lo hi (map (scale k) A) (map (scale k) A) == norm_count ang lo hi A A.
+Proof. exact @norm_weight_scale_both. Qed.
+Print Assumptions C13_norm_weight_scale_auto.
+
+(* ---------------- the jackknife covariance under relabelling ---------------- *)
+(* relabelling patches permutes the jackknife samples (C13_loo_patch_relabel); the covariance is a symmetric
+   function of the samples *)
+Theorem C13_covariance_sample_order : forall X X' i j, Permutation X X' -> cov_code X i j == cov_code X' i j.
+Proof. exact cov_sample_order. Qed.
+Print Assumptions C13_covariance_sample_order.
+
+Example C13_rotation_concrete :
+  let R : m3 := ((1 # 3, 2 # 3, 2 # 3), (2 # 3, 1 # 3, - (2 # 3)), (2 # 3, - (2 # 3), 1 # 3)) in
+  let u : v3 := (3 # 5, 4 # 5, 0) in let v : v3 := (0, 0, 1) in
+  orthb R = true /\ Qeqb (chord2 (mv R u) (mv R v)) (chord2 u v) = true /\ Qeqb (chord2 u v) 2 = true
+  /\ Qeqb (dot3 (mv R u) (mv R u)) 1 = true.
+Proof. vm_compute. repeat split; reflexivity. Qed.
 
 Example C13_concrete :
   let ang := fun a b : Q => Qabs (a - b) in
